@@ -101,6 +101,26 @@ def keysOkVariants : List (Name × Nat × List (Option Name × Bool × Ty)) → 
 end
 
 mutual
+/-- types whose decoder has no key-order check: no hash/ordered set or map anywhere (index
+collections have no check in either mode) -/
+def noOrderCheck : Ty → Bool
+  | .seq _ t => noOrderCheck t
+  | .set _ _ => false
+  | .map k a b => k == .indexMap && noOrderCheck a && noOrderCheck b
+  | .array _ t => noOrderCheck t
+  | .prod _ fs => noOrderCheckFields fs
+  | .sum _ vs => noOrderCheckVariants vs
+  | .wrap _ t => noOrderCheck t
+  | _ => true
+def noOrderCheckFields : List (Option Name × Bool × Ty) → Bool
+  | [] => true
+  | (_, _, t) :: fs => noOrderCheck t && noOrderCheckFields fs
+def noOrderCheckVariants : List (Name × Nat × List (Option Name × Bool × Ty)) → Bool
+  | [] => true
+  | (_, _, fs) :: vs => noOrderCheckFields fs && noOrderCheckVariants vs
+end
+
+mutual
 /-- types on which strict-mode decoding is injective on accepted inputs ("accepted bytes
 re-encode to themselves"): no index collections (finding F6: they accept repeated keys), no init
 hooks (they change the decoded value), and skipped fields whose `Default` is a value of the type -/
